@@ -30,6 +30,21 @@ class SelectExtractor(BaseExtractor, SourceHandlerMixin):
         self.tables = []
         self.union_barriers = []
 
+    @staticmethod
+    def _list_set_expression_branch(segment: BaseSegment) -> list[BaseSegment]:
+        """
+        branches of a set expression in order. A parenthesised branch that is a set expression of its own, like
+        SELECT ... UNION (SELECT ... EXCEPT SELECT ...), contributes each of its branches.
+        """
+        branches = []
+        for sub_segment in segment.get_children("select_statement", "bracketed"):
+            if sub_segment.type == "bracketed" and is_set_expression(sub_segment):
+                for nested in list_child_segments(sub_segment):
+                    branches += SelectExtractor._list_set_expression_branch(nested)
+            else:
+                branches.append(sub_segment)
+        return branches
+
     def extract(
         self,
         statement: BaseSegment,
@@ -50,7 +65,7 @@ class SelectExtractor(BaseExtractor, SourceHandlerMixin):
 
             if is_set_expression(segment):
                 for _, sub_segment in enumerate(
-                    segment.get_children("select_statement", "bracketed")
+                    self._list_set_expression_branch(segment)
                 ):
                     for seg in list_child_segments(sub_segment):
                         for sq in self.list_subquery(seg):
@@ -63,7 +78,7 @@ class SelectExtractor(BaseExtractor, SourceHandlerMixin):
 
             if is_set_expression(segment):
                 for idx, sub_segment in enumerate(
-                    segment.get_children("select_statement", "bracketed")
+                    self._list_set_expression_branch(segment)
                 ):
                     if idx != 0:
                         self.union_barriers.append(
